@@ -18,9 +18,19 @@ def run_sep(ctx, files=("src/face.rs", "src/keys.rs")):
             if b.local_ty(l) != "bool":
                 continue
             defs = b.defs_of(l)
-            trues = [d for d in defs if d[1] != "term" and d[2]["k"] == "use" and op_const_int(d[2]["a"]) == 1]
-            falses = [d for d in defs if d[1] != "term" and d[2]["k"] == "use" and op_const_int(d[2]["a"]) == 0]
-            if len(trues) != 1 or not falses or len(trues) + len(falses) != len(defs):
+            consts = [(d, op_const_int(d[2]["a"])) for d in defs if d[1] != "term" and d[2]["k"] == "use" and op_const_int(d[2]["a"]) in (0, 1)]
+            if len(consts) != len(defs) or not defs:
+                continue
+            # either polarity: `first` (starts true, cleared to false) or `need_separator` (starts false, set to true).  The initial value is
+            # the one assigned in the block that dominates all other assignments; the other value means "an item has been written".
+            cfg0 = b.cfg()
+            inits = [d for d, v in consts if all(cfg0.dominates(d[0], d2[0]) for d2, _ in consts)]
+            if len(inits) != 1:
+                continue
+            v0 = [v for d, v in consts if d is inits[0]][0]
+            trues = [inits[0]]
+            falses = [d for d, v in consts if v != v0]
+            if not falses or len(falses) + 1 != len(defs):
                 continue
             cfg = b.cfg()
             # reads of the flag: switches whose discriminant derives from the flag
@@ -49,19 +59,41 @@ def run_sep(ctx, files=("src/face.rs", "src/keys.rs")):
             if not sep:
                 continue
             found += 1
-            clear_blocks = {d[0] for d in falses}
-            pre = cfg.reachable_from(init_bb, removed=clear_blocks)
-            for bb, t in items:
-                # violation iff some path init -> item write -> read of the flag contains no `flag = false` at all
-                bad = None
-                if bb in pre:
-                    post = cfg.reachable_from(t["t"], removed=clear_blocks) if t["t"] not in clear_blocks else set()
-                    hit = [r for r in reads if r in post]
-                    if hit:
-                        bad = hit[0]
+            # Explore (block, flag value, item written since the flag last changed) from the initialisation, following at every read of the flag
+            # only the edge its current value selects: a violation is a read that still sees the initial value although an item has been written.
+            # (`if first { first = false } else { sep }; item` clears on the only feasible way to the item: the flag's value matters, not just
+            # which blocks lie on a path.)
+            item_at = {bb: k for k, (bb, t) in enumerate(items)}
+            clear_at = {}
+            for d in falses:
+                clear_at.setdefault(d[0], []).append(d[1])
+            bad_items = {}
+            seen = set()
+            todo = [(init_bb, v0, None)]
+            while todo:
+                st = todo.pop()
+                if st in seen:
+                    continue
+                seen.add(st)
+                bb, fv, pend = st
+                if bb in clear_at:
+                    fv, pend = 1 - v0, None
+                t = b.blocks[bb]["term"]
+                if bb in item_at and fv == v0:
+                    pend = item_at[bb]
+                succ = b.succs(bb)
+                if bb in reads:
+                    if fv == v0 and pend is not None:
+                        bad_items.setdefault(pend, bb)
+                    val = fv if not expr(b, t["d"]).startswith("Not(") else 1 - fv
+                    succ = [t["targets"][t["vals"].index(str(val))]] if str(val) in t["vals"] else [t["otherwise"]]
+                for s2 in succ:
+                    todo.append((s2, fv, pend))
+            for k, (bb, t) in enumerate(items):
+                bad = bad_items.get(k)
                 ctx.instance("SEPARATOR", {"fn": b.path, "flag": nm, "item_write_line": t["line"], "flag_cleared_before_next_read": bad is None})
                 if bad is not None:
-                    ctx.violation("SEPARATOR", b.path, "item-%d" % (items.index((bb, t)) + 1),
+                    ctx.violation("SEPARATOR", b.path, "item-%d" % (k + 1),
                                   "after the item written at line %d the separator flag `%s` is not cleared before it is tested again: the next item is printed without a separator and the text does not parse back" % (t["line"], nm),
                                   sites=["%s:%d" % (b.file, t["line"])])
     if found == 0:
